@@ -445,6 +445,7 @@ impl<'a> Interp<'a> {
 /// Returns Err((op index, description)) on the first disagreement (or panic),
 /// else Ok((model at the end, canonical impl state at the end)).
 fn replay_history(ops: &[Op]) -> Result<(Model, String), (usize, String)> {
+    let _guard = case_guard(format!("{{\"history\": {:?}}}", ops.iter().map(|o| format!("{o:?}")).collect::<Vec<_>>()));
     let r = catch(|| {
         let mut set = VariableSet::new();
         let mut it = Interp::new(ops);
